@@ -311,12 +311,14 @@ class TBRiROAS():
     tail_probability = (1 - level) / tails
 
     metric_data = metric_df.analysis_data.copy().reset_index()
+    # Only the pre-test, test and cooldown dates enter the report.
+    metric_data = metric_data[metric_data['period'].isin(periods)]
 
-    dates = metric_data.loc[metric_data['period'].isin(periods),
-                            'date'].unique()
-    experiment_dates = metric_data.loc[
+    dates = np.sort(metric_data.loc[metric_data['period'].isin(periods),
+                                    'date'].unique())
+    experiment_dates = np.sort(metric_data.loc[
         metric_data['period'].isin([self.periods.test, self.periods.cooldown]),
-        'date'].unique()
+        'date'].unique())
 
     if self._is_fixed_cost_scenario() and metric == 'tbr_cost':
       tmp_data = metric_data[metric_data[self.df_names.group] ==
